@@ -1,19 +1,108 @@
-"""One-off helper: dump the findings of every check on the current tree as
-candidate entries for known_findings.json (hand-curated afterwards; the
-checks themselves never write that file)."""
-import json, sys, subprocess
-sys.path.insert(0, '.')
-from qbstatic.model import Repo
-from qbstatic.report import Ctx
-from qbstatic.check import CLAIMED
+"""Re-derives the findings of every check on the CURRENT tree and writes
+known_findings.json, attaching the hand-confirmed witness to each.  A finding
+that matches no witness line is NOT written (it must be triaged by hand
+first); the tool prints it and exits 1.  Run by hand only -- the registered
+checks never write known_findings.json."""
 import importlib
-repo = Repo()
-out = []
-for pid in CLAIMED:
-    mod = importlib.import_module(f'qbstatic.props.{pid.lower()}')
-    ctx = Ctx(pid, 'thorough', repo)
-    mod.run(ctx)
-    for f in ctx.findings:
-        out.append({'property': pid, 'key': f.key, 'what': f.message,
-                    'where': f'{f.file}:{f.line}'})
-json.dump(out, sys.stdout, indent=1)
+import json
+import subprocess
+import sys
+
+sys.path.insert(0, '.')
+from qbstatic.model import Repo          # noqa: E402
+from qbstatic.report import Ctx          # noqa: E402
+from qbstatic.check import CLAIMED       # noqa: E402
+
+# (key fragment, confirmed witness).  First match wins.
+WIT = [
+ ('fold-site-guarded:qbee/qvm_codegen.py:gen_lvalue', 'SUB foo / PRINT x / END SUB / CONST x = 1/0  -> ZeroDivisionError in gen_lvalue'),
+ ('fold-site-guarded:qbee/stmt.py', 'DIM a(1/0) -> ZeroDivisionError in Pass2.process_dim_pre'),
+ ('fold-site-guarded:qvm/debug_info.py', 'CONST c = 1/0 compiled with -g -> ZeroDivisionError while building debug info'),
+ ('.type-obligation-discharged', 'e.g. IF "a" THEN PRINT 1 / FOR i = 1 TO "a" / COLOR "a" / SOUND "a",1 / DIM a("x") / BLOAD "x","y" / DEF SEG = "a" / RANDOMIZE "a" / LOCATE 1,1,"a" / DO WHILE "a" -> KeyError conv$% (or TypeError) in the compiler'),
+ ('.one-cell-per-parameter', 'SUB f(x AS t) with a two-field record, CALL f(r) -> IndexError in _exec_frame'),
+ ('statement-dispatch-exhaustive:qbee/grammar.py:stmt:elseif_stmt', 'IF x THEN / FOR i = 1 TO 2 / ELSEIF x THEN / NEXT / END IF -> InternalError'),
+ ('statement-dispatch-exhaustive:qbee/grammar.py:stmt:else_stmt', 'IF x THEN / FOR i = 1 TO 2 / ELSE / NEXT / END IF -> InternalError'),
+ ('statement-dispatch-exhaustive:qbee/grammar.py:stmt:type_field_decl', 'x AS INTEGER (outside TYPE) -> InternalError'),
+ ('statement-dispatch-exhaustive:qbee/grammar.py:stmt:case_stmt', 'CASE 1 (outside SELECT) -> AttributeError'),
+ ('restore-label-lookup-total', 'a: / RESTORE a (label without DATA) -> ValueError'),
+ ('compile-time-partial-operation', 'x& = 1D400 at -O2 -> OverflowError in QvmCode.optimize'),
+ ('nothing-traps-outside-tick-try', 'ON ERROR RESUME NEXT / x = 1 / 0 compiled without -g -> Trapped escapes run()'),
+ ('handlers-raise-only-mapped-exceptions', 'PRINT USING "&"; 5 -> RuntimeError'),
+ ('none-initialised-state-guarded:qvm/machine.py', 'x = PEEK(5) with the default segment -> TypeError (format of None)'),
+ ('partial-operation-unmapped:qvm/cpu.py:QvmCpu._exec_cint', 'x# = 1D400 : y% = CINT(x#) -> OverflowError'),
+ ('partial-operation-unmapped:qvm/cpu.py:QvmCpu._exec_clng', 'x# = 1D400 : y& = CLNG(x#) -> OverflowError'),
+ ('partial-operation-unmapped:qvm/cpu.py:QvmCpu._exec_int', 'x# = 1D400 : y& = INT(x#) -> OverflowError'),
+ ('partial-operation-unmapped:qvm/cpu.py:conv-family', 'x# = 1D400 : y& = x# -> OverflowError'),
+ ('partial-operation-unmapped:qvm/cpu.py:QvmCpu._exec_exp', 'x# = 10 : y# = x# ^ 5000 -> OverflowError;  (-8) ^ 0.5 -> complex TypeError'),
+ ('partial-operation-unmapped:qvm/cpu.py:QvmCpu._exec_strrep', 'PRINT STRING$(3, 300) -> ValueError'),
+ ('partial-operation-unmapped:qvm/machine.py:TerminalDevice._exec_print', 'PRINT USING "##"; -> IndexError'),
+ ('line-end-guard-siblings-agree', 'PRINT USING "##"; -> IndexError'),
+ ('partial-results-discarded', 'ON ERROR GOTO h / x = 5 + a(9) / ... h: RESUME NEXT -> 5.0 stays on the operand stack'),
+ ('only-evaluation-errors-escape:qbee/expr.py:BinaryOp._eval_numeric.limit', 'debugger: print 32767% + 1% -> OverflowError'),
+ ('only-evaluation-errors-escape:qbee/expr.py:Expr.eval', 'debugger: print len("a") -> InternalError'),
+ ('only-evaluation-errors-escape:qbee/expr.py:Lvalue.type', 'debugger: print x.y + 1 (x not a record) -> CompileError'),
+ ('only-evaluation-errors-escape:qvm/eval.py', 'debugger: print k(1) (k a CONST) -> ValueError'),
+ ('partial-arithmetic-caught', 'debugger: print 1/0 -> ZeroDivisionError'),
+ ('frame-state-guarded', 'debugger: continue to the end, then print x -> AttributeError'),
+ ('formatter-alphabet-accepted-by-readers', 'PRINT 1D+20 shows 1D+20; INPUT x# answered 1D+20 -> "Redo from start"; DATA 1D+20 : READ x# -> device error'),
+ ('parse-action-shape:qbee/grammar.py:parse_bload_stmt', 'BLOAD "x" -> ValueError (not enough values to unpack)'),
+ ('parse-action-shape:qbee/grammar.py:parse_right_assoc_binary_expr', 'PRINT 2 ^ -1 -> AssertionError'),
+ ('consumer-type', 'KILL 5 / DO ... LOOP WHILE x! -> machine TYPE_MISMATCH for an accepted program'),
+]
+
+# fixed: (property, commit subject fragment, key, what failed)
+FIXED = [
+ ('C02', 'detect LONG overflow', 'C02.fold-range-equals-runtime-range:qbee/expr.py:BinaryOp._eval_numeric.limit[LONG]', 'x& = 2147483647 + 1 at -O1: folded with 64-bit c_long, bytes(code) raised struct.error'),
+ ('C04', 'readidx writes the default', 'C04.default-written-where-read:qvm/cpu.py:_exec_readidx*-family', 'r.b = 7 : PRINT q.b : PRINT r.b printed 0 (default written to idx instead of var+idx)'),
+ ('C06', 'LOCATE with a row', 'C06.optional-children-guarded:qbee/qvm_codegen.py:gen_locate_stmt:node.col', 'LOCATE 5 -> InternalError'),
+ ('C07', 'ERR is 0 before', 'C07.none-initialised-state-guarded:qvm/cpu.py:QvmCpu._exec_errget:self.last_trap.value', 'PRINT ERR before any error -> AttributeError'),
+ ('C09', 'decode string literal operands', 'C09.codec-agreement:qvm/instrs.py:def_instr[push$]', 'push$ index encoded >H, decoded >h by the CPU'),
+ ('C09', 'write the DATA item count', 'C09.section-writer-reader-agreement:qbee/qvm_codegen.py:QvmCode.__bytes__:data[depth1]', 'DATA item count written >h, read >H'),
+ ('C10', 'record the failing address', 'C10.failing-address-recorded:qvm/cpu.py:QvmCpu.tick:_trap(TrapCode.DIVISION_BY_ZERO)', 'x = 5 + 1 / y under ON ERROR GOTO + RESUME NEXT -> CANNOT_RESUME'),
+ ('C15', 'RESTORE without a label', 'C15.restore-operand-valid-part-index:qbee/qvm_codegen.py:gen_restore_stmt:plain-restore', 'plain RESTORE pushed -1 and rewound to the LAST data part'),
+ ('C10', 'leave error-handling mode', 'C10.resume-targets:qvm/cpu.py:QvmCpu._exec_errres:leaves-handler-mode', 'after the first RESUME every later error was fatal and ret trapped NO_RESUME'),
+ ('C10', 'leave error-handling mode', 'C10.resume-targets:qvm/cpu.py:QvmCpu._exec_errresn:leaves-handler-mode', 'same, RESUME NEXT'),
+ ('C18', 'INPUT pushes values only after', 'C18.no-push-before-reject:qvm/machine.py:TerminalDevice._exec_input.push_vars', 'INPUT a%, b% answered "x,5" then "1,2" left 5 on the operand stack'),
+]
+
+
+def sha(msg):
+    o = subprocess.check_output(['git', '-C', '/repo', 'log',
+                                 '--format=%h %s']).decode().splitlines()
+    for l in o:
+        if msg in l:
+            return l.split()[0]
+    raise SystemExit(f'fix commit not found: {msg}')
+
+
+def main():
+    repo = Repo()
+    out, untriaged = [], []
+    for pid in CLAIMED:
+        mod = importlib.import_module(f'qbstatic.props.{pid.lower()}')
+        ctx = Ctx(pid, 'thorough', repo)
+        mod.run(ctx)
+        for f in ctx.findings:
+            w = next((wit for frag, wit in WIT if frag in f.key), None)
+            if w is None:
+                untriaged.append((pid, f.key, f.message))
+                continue
+            out.append({'property': pid, 'key': f.key, 'what': f.message,
+                        'witness': w})
+    doc = {'_comment': 'Genuine defects of elektito/qbee found by the '
+           'checks. "findings" are recorded (not repaired) and suppress '
+           'only the exact rule:construct key; "fixed" entries suppress '
+           'nothing.',
+           'findings': out,
+           'fixed': [{'property': p, 'commit': sha(c), 'key': k, 'what': w,
+                      'line': f'fixed: property={p} {sha(c)} {w}'}
+                     for p, c, k, w in FIXED]}
+    if '--write' in sys.argv:
+        json.dump(doc, open('known_findings.json', 'w'), indent=1)
+    print(len(out), 'findings,', len(FIXED), 'fixed')
+    for u in untriaged:
+        print('UNTRIAGED', u)
+    sys.exit(1 if untriaged else 0)
+
+
+main()
